@@ -166,6 +166,8 @@ void runSequence(int nOpsWanted) {
         log("end of sequence: destroy all");
         destroyAll();
         c.obs("big_sequences_completed");
+        if (c.wantSample()) { vh::Json ops = vh::Json::arr(); for (size_t k = 0; k < hist.size() && k < 12; ++k) ops.push(vh::Json(hist[k]));
+            c.sample(vh::Json::obj().set("family", famName()).set("operations", (long)nOps).set("first_ops", ops)); }
     } catch (const SeqAbort&) {
         c.obs("big_sequences_aborted_after_violation");
     }
